@@ -14,13 +14,21 @@ from core import GQ
 from props.c02 import Gen
 
 
-def gen_circuit(ctx, rng, max_depth: int = 2, lossless: bool | None = None, max_n: int = 5):
-    """program building circuit 'c1' (possibly with heralded sub-circuits and loss)"""
-    g = Gen(ctx, rng)
-    g.circuit(rng.choice(list(range(max_depth + 1))), max_n=max_n)
-    prog = g.prog
-    if lossless:
-        prog = [op for op in prog if not is_lossy(op)]
+def gen_circuit(ctx, rng, max_depth: int = 2, lossless: bool | None = None, max_n: int = 5,
+                max_herald_photons: int = 2):
+    """program building circuit 'c1' (possibly with heralded sub-circuits and loss); retried until it
+    mixes modes (a beam splitter or unitary block) and carries few herald photons, so that the photon
+    budget of the exact model is left to the user input"""
+    prog = None
+    for _ in range(8):
+        g = Gen(ctx, rng)
+        g.circuit(rng.choice(list(range(max_depth + 1))), max_n=max_n)
+        prog = g.prog
+        if lossless:
+            prog = [op for op in prog if not is_lossy(op)]
+        hp = sum(op[2] for op in prog if op[0] == "herald")
+        if hp <= max_herald_photons and any(op[0] in ("bs", "unitary") for op in prog):
+            break
     return prog
 
 
